@@ -134,6 +134,12 @@ impl Database {
                 if !errors.is_empty() {
                     let _ = reply_tx.send(Err(ReadError::SetConfirmations { errors }));
                 } else {
+                    #[cfg(feature = "verif")]
+                    seglog::verif::point(
+                        "db:confirmations_set",
+                        (transaction_id.as_u128() >> 64) as u64,
+                        ((transaction_id.as_u128() as u64) & !0xff) | confirmation_count as u64,
+                    );
                     let _ = reply_tx.send(Ok(()));
                 }
             })
